@@ -8,6 +8,7 @@ import (
 	bglt "github.com/tuneinsight/lattigo/v6/circuits/bgv/lintrans"
 	comlt "github.com/tuneinsight/lattigo/v6/circuits/common/lintrans"
 	"github.com/tuneinsight/lattigo/v6/core/rlwe"
+	"github.com/tuneinsight/lattigo/v6/schemes"
 	"github.com/tuneinsight/lattigo/v6/schemes/bgv"
 
 	"verif/harness/eng"
@@ -26,6 +27,7 @@ type bgvCtx struct {
 	pk     *rlwe.PublicKey
 	ecd    *bgv.Encoder
 	dec    *rlwe.Decryptor
+	x      *xstate // extended cases only
 }
 
 // matrix on the plaintext side: either diagonals (key = normalised index, 2*cols values mod t)
@@ -109,12 +111,19 @@ func toDiagI(m map[int][]uint64, t uint64) bglt.Diagonals[int64] {
 }
 
 func runBGV(c *eng.Ctx, cfg paramCfg) {
-	params, err := bgv.NewParametersFromLiteral(bgv.ParametersLiteral{LogN: cfg.LogN, Q: cfg.Q, P: cfg.P, PlaintextModulus: cfg.T})
+	lit := bgv.ParametersLiteral{LogN: cfg.LogN, Q: cfg.Q, P: cfg.P, PlaintextModulus: cfg.T}
+	if cfg.X != nil {
+		lit.Xs, lit.Xe = cfg.X.dists(1 << cfg.LogN)
+	}
+	params, err := bgv.NewParametersFromLiteral(lit)
 	if err != nil {
 		c.Violate("C12|bgv.NewParametersFromLiteral|error-on-admissible", err.Error(), cfg)
 		return
 	}
 	b := &bgvCtx{c: c, cfg: cfg, params: params, t: cfg.T}
+	if cfg.X != nil {
+		b.x = &xstate{cfg: cfg.X}
+	}
 	b.cols = 1 << params.LogMaxDimensions().Cols
 	b.kgen = rlwe.NewKeyGenerator(params)
 	b.sk, b.pk = b.kgen.GenKeyPairNew()
@@ -123,6 +132,9 @@ func runBGV(c *eng.Ctx, cfg paramCfg) {
 	rnd := c.Rand()
 	for pi := 0; pi < cfg.NProg; pi++ {
 		b.program(rnd.Sub("prog", pi), pi)
+	}
+	if b.x != nil && cfg.X.Refusal {
+		b.refusals(rnd.Sub("refusals"))
 	}
 }
 
@@ -199,6 +211,10 @@ func (b *bgvCtx) program(r *eng.Rand, pi int) {
 	rescales := b.cfg.Scheme == "bgv"
 	p := samplePlan(r, pi, logCols, params.MaxLevel(), params.MaxLevelP(), params.N() >= 512, rescales, true)
 	useInt := r.N(3) == 0
+	if b.x != nil {
+		p = samplePlan(r.Sub("xplan"), pi, logCols, params.MaxLevel(), params.MaxLevelP(), params.N() >= 512, rescales, true, xModeTable...)
+		b.x.tweak(&p, r.Sub("x"), params.MaxLevel(), rescales)
+	}
 
 	// plaintext matrices
 	mats := make([]bgvMat, len(p.lts))
@@ -353,6 +369,7 @@ func (b *bgvCtx) program(r *eng.Rand, pi int) {
 	if p.isNew() {
 		desc.OutLevel = -1
 	}
+	desc.X = p.x
 	for i, lt := range p.lts {
 		desc.LTs = append(desc.LTs, ltDesc{Diags: lt.lib, Kind: lt.kind, Val: lt.val, Ratio: lt.ratio, LevelQ: lt.levelQ, Scale: fmt.Sprint(ltScales[i]), Perm: lt.perm, GalFrom: lt.galFrom})
 	}
@@ -360,6 +377,9 @@ func (b *bgvCtx) program(r *eng.Rand, pi int) {
 		c.Sample(desc)
 	}
 	ent := entry(b.cfg.Scheme, p.mode)
+	if p.x != nil && p.x.Call == xCallDirect {
+		ent = directEntry(n1s[0])
+	}
 	fail := func(class, detail string) {
 		c.Violate(ent+"|"+class, detail+fmt.Sprintf("\nprogram=%+v", desc), desc)
 	}
@@ -368,6 +388,32 @@ func (b *bgvCtx) program(r *eng.Rand, pi int) {
 	for i := range lts {
 		var e error
 		ii := i
+		if p.x != nil && p.x.Decoy {
+			// the transformation is a used receiver: another matrix with the same diagonals is encoded first
+			rd := r.Sub("decoy", ii)
+			var e0 error
+			if !c.Try("C12|bgv/lintrans.Encode", func() {
+				if libs[ii].s != nil {
+					d := bglt.Diagonals[int64]{}
+					for kk := range libs[ii].s {
+						d[kk] = toDiagI(map[int][]uint64{0: bgvValues(rd, 2*cols, t, "uniform")}, t)[0]
+					}
+					e0 = bglt.Encode(b.ecd, d, lts[ii])
+				} else {
+					d := bglt.Diagonals[uint64]{}
+					for kk := range libs[ii].u {
+						d[kk] = bgvValues(rd, 2*cols, t, "uniform")
+					}
+					e0 = bglt.Encode(b.ecd, d, lts[ii])
+				}
+			}) {
+				return
+			}
+			if e0 != nil {
+				c.Violate("C12|bgv/lintrans.Encode|error-on-admissible", fmt.Sprintf("%v\nprogram=%+v", e0, desc), desc)
+				return
+			}
+		}
 		if !c.Try("C12|bgv/lintrans.Encode", func() {
 			if libs[ii].s != nil {
 				e = bglt.Encode(b.ecd, libs[ii].s, lts[ii])
@@ -409,7 +455,16 @@ func (b *bgvCtx) program(r *eng.Rand, pi int) {
 	gks := b.kgen.GenGaloisKeysNew(galEls, b.sk, rlwe.EvaluationKeyParameters{LevelQ: &lq, LevelP: &lp})
 	evk := rlwe.NewMemEvaluationKeySet(nil, gks...)
 	ev := bgv.NewEvaluator(params, evk, !rescales)
+	if p.x != nil {
+		ev = b.x.evaluator(c, r.Sub("xev"), p.x, params.GetRLWEParameters(), ev,
+			func() schemes.Evaluator { return bgv.NewEvaluator(params, nil, !rescales) },
+			func(e schemes.Evaluator) schemes.Evaluator { return e.(*bgv.Evaluator).WithKey(evk) },
+			func(e schemes.Evaluator) schemes.Evaluator { return e.(*bgv.Evaluator).ShallowCopy() }).(*bgv.Evaluator)
+	}
 	lev := bglt.NewEvaluator(ev)
+	if p.x != nil && p.x.Literal {
+		lev = &bglt.Evaluator{Evaluator: comlt.Evaluator{Evaluator: ev}}
+	}
 	c.Count("galois_keys_generated", int64(len(galEls)))
 	c.Max("max_galois_keys_per_program", int64(len(galEls)))
 
@@ -435,14 +490,21 @@ func (b *bgvCtx) program(r *eng.Rand, pi int) {
 	ctSnap := ct.CopyNew()
 
 	// call
-	var outs []*rlwe.Ciphertext
-	var cerr error
-	okc := c.Try(ent, func() {
+	deg := 1
+	if p.x != nil && p.x.RecvDeg2 {
+		deg = 2
+	}
+	var extras, extraSnaps []*rlwe.Ciphertext
+	call := func(ct *rlwe.Ciphertext) (outs []*rlwe.Ciphertext, cerr error) {
 		switch p.mode {
 		case mEval:
-			o := bgv.NewCiphertext(params, 1, p.outLevel)
+			o := bgv.NewCiphertext(params, deg, p.outLevel)
 			dirtyQ(r, o, params.Q())
-			cerr = lev.Evaluate(ct, lts[0], o)
+			if p.x != nil && p.x.Call == xCallDirect {
+				cerr = directCall(lev.Evaluator, ct, comlt.LinearTransformation(lts[0]), o, p.x.Junk)
+			} else {
+				cerr = lev.Evaluate(ct, lts[0], o)
+			}
 			outs = []*rlwe.Ciphertext{o}
 		case mEvalIn:
 			cerr = lev.Evaluate(ct, lts[0], ct)
@@ -454,15 +516,32 @@ func (b *bgvCtx) program(r *eng.Rand, pi int) {
 		case mMany:
 			outs = make([]*rlwe.Ciphertext, len(lts))
 			for i := range outs {
-				outs[i] = bgv.NewCiphertext(params, 1, p.outLevel)
+				outs[i] = bgv.NewCiphertext(params, deg, p.outLevel)
 				dirtyQ(r, outs[i], params.Q())
 			}
-			cerr = lev.EvaluateMany(ct, lts, outs)
+			if p.aliasLast {
+				outs[len(outs)-1] = ct
+			}
+			if p.x != nil && p.x.Call == xCallExtraRecv {
+				extras, extraSnaps = nil, nil
+				for i := 0; i < 2; i++ {
+					o := bgv.NewCiphertext(params, 1, p.outLevel)
+					dirtyQ(r, o, params.Q())
+					extras = append(extras, o)
+					extraSnaps = append(extraSnaps, o.CopyNew())
+				}
+				cerr = lev.EvaluateMany(ct, lts, append(append([]*rlwe.Ciphertext(nil), outs...), extras...))
+			} else {
+				cerr = lev.EvaluateMany(ct, lts, outs)
+			}
 		case mManyNew:
 			outs, cerr = lev.EvaluateManyNew(ct, lts)
 		case mSeq:
-			o := bgv.NewCiphertext(params, 1, p.outLevel)
+			o := bgv.NewCiphertext(params, deg, p.outLevel)
 			dirtyQ(r, o, params.Q())
+			if p.x != nil && p.x.Call == xCallSeqInPl {
+				o = ct
+			}
 			cerr = lev.EvaluateSequential(ct, lts, o)
 			outs = []*rlwe.Ciphertext{o}
 		case mSeqNew:
@@ -470,9 +549,24 @@ func (b *bgvCtx) program(r *eng.Rand, pi int) {
 			o, cerr = lev.EvaluateSequentialNew(ct, lts)
 			outs = []*rlwe.Ciphertext{o}
 		}
-	})
+		return
+	}
+	var outs []*rlwe.Ciphertext
+	var cerr error
+	trySig := ent
+	if p.levelP > params.MaxLevel() {
+		// triaged class of its own (see sigPAboveQ): computed from the program, never from the outcome
+		trySig = sigPAboveQ
+		c.Count("x_programs_levelP_above_max_levelQ", 1)
+	}
+	okc := c.Try(trySig, func() { outs, cerr = call(ct) })
 	c.Count("programs_"+p.mode, 1)
-	c.Distinct(p.key(b.cfg.Scheme, "std", b.cfg.LogN, n1s), p.nontrivial())
+	if p.x != nil {
+		c.Distinct(p.key(b.cfg.Scheme, "std", b.cfg.LogN, n1s)+"|"+p.x.key(), p.nontrivial())
+		xCoverage(c, p)
+	} else {
+		c.Distinct(p.key(b.cfg.Scheme, "std", b.cfg.LogN, n1s), p.nontrivial())
+	}
 	b.coverage(p, n1s)
 	if !okc {
 		return
@@ -483,8 +577,11 @@ func (b *bgvCtx) program(r *eng.Rand, pi int) {
 		fail(errClass(cerr), cerr.Error())
 		return
 	}
-	if p.mode != mEvalIn && !ct.Equal(ctSnap) {
+	if p.mode != mEvalIn && !(p.x != nil && p.x.inputAliased()) && !ct.Equal(ctSnap) {
 		fail("input-modified", "input ciphertext changed by the call")
+	}
+	if p.x != nil {
+		xAfterCall(c, ent, p, outs, extras, extraSnaps, func() ([]*rlwe.Ciphertext, error) { return call(ctSnap.CopyNew()) }, fail)
 	}
 
 	// expectations
@@ -661,4 +758,85 @@ func contains(s, sub string) bool {
 		}
 		return false
 	})()
+}
+
+// refusals builds the objects of the refusal checks (refusals.go) for the integer schemes.
+func (b *bgvCtx) refusals(r *eng.Rand) {
+	c := b.c
+	params := b.params
+	cols := b.cols
+	t := b.t
+	levelP := params.MaxLevelP()
+	if levelP > params.MaxLevel() {
+		levelP = params.MaxLevel() // see sigPAboveQ
+	}
+	diags := refusalDiags(cols)
+	alloc := func(ratio, lp int) (lt bglt.LinearTransformation, ok bool) {
+		ok = c.Try("C12|bgv/lintrans.NewLinearTransformation", func() {
+			lt = bglt.NewLinearTransformation(params, bglt.Parameters{DiagonalsIndexList: append([]int(nil), diags...), LevelQ: params.MaxLevel(), LevelP: lp,
+				Scale: params.NewScale(1), LogDimensions: params.LogMaxDimensions(), LogBabyStepGiantStepRatio: ratio})
+		})
+		return
+	}
+	naive, ok1 := alloc(-1, levelP)
+	bsgs, ok2 := alloc(0, levelP)
+	if !ok1 || !ok2 {
+		return
+	}
+	d := bglt.Diagonals[uint64]{}
+	for _, k := range diags {
+		d[k] = bgvValues(r, 2*cols, t, "uniform")
+	}
+	for _, lt := range []bglt.LinearTransformation{naive, bsgs} {
+		var e error
+		l := lt
+		if !c.Try("C12|bgv/lintrans.Encode", func() { e = bglt.Encode(b.ecd, d, l) }) || e != nil {
+			return
+		}
+	}
+	env := &refEnv{c: c, pk: "bgv/lintrans", rp: params.GetRLWEParameters(), cols: cols, levelP: levelP,
+		naive: comlt.LinearTransformation(naive), bsgs: comlt.LinearTransformation(bsgs), keys: map[uint64]*rlwe.GaloisKey{},
+		desc: map[string]any{"scheme": b.cfg.Scheme, "logN": b.cfg.LogN, "diags": diags, "N1": bsgs.N1, "levelP": levelP}}
+	if levelP > 0 {
+		if low, ok := alloc(-1, levelP-1); ok {
+			l := comlt.LinearTransformation(low)
+			env.lowP = &l
+		}
+	}
+	var ges []uint64
+	if !c.Try("C12|lintrans.GaloisElements", func() { ges = append(naive.GaloisElements(params), bsgs.GaloisElements(params)...) }) {
+		return
+	}
+	for _, g := range ges {
+		if _, ok := env.keys[g]; !ok {
+			lq, lp := params.MaxLevel(), levelP
+			env.keys[g] = b.kgen.GenGaloisKeyNew(g, b.sk, rlwe.EvaluationKeyParameters{LevelQ: &lq, LevelP: &lp})
+		}
+	}
+	env.newCt = func() *rlwe.Ciphertext { return bgv.NewCiphertext(params, 1, params.MaxLevel()) }
+	pt := bgv.NewPlaintext(params, params.MaxLevel())
+	if err := b.ecd.Encode(bgvValues(r, 2*cols, t, "uniform"), pt); err != nil {
+		return
+	}
+	ct, err := rlwe.NewEncryptor(params, b.sk).EncryptNew(pt)
+	if err != nil {
+		return
+	}
+	env.ct = ct
+	env.mk = func(evk rlwe.EvaluationKeySet) refCalls {
+		lev := bglt.NewEvaluator(bgv.NewEvaluator(params, evk, b.cfg.Scheme == "bfv"))
+		return refCalls{
+			evaluate: func(ct *rlwe.Ciphertext, lt comlt.LinearTransformation, out *rlwe.Ciphertext) error {
+				return lev.Evaluate(ct, bglt.LinearTransformation(lt), out)
+			},
+			many: func(ct *rlwe.Ciphertext, lts []comlt.LinearTransformation, outs []*rlwe.Ciphertext) error {
+				l := make([]bglt.LinearTransformation, len(lts))
+				for i := range lts {
+					l[i] = bglt.LinearTransformation(lts[i])
+				}
+				return lev.EvaluateMany(ct, l, outs)
+			},
+		}
+	}
+	env.run()
 }
